@@ -213,7 +213,12 @@ func c05Body(x *explore.Ctx, sh c05Shape, readerIsServer bool, rbs, fi int, tier
 			x.Check(bytes.HasPrefix(msgs[len(got)].Payload, partial), key("partial-corrupt"), "bytes delivered for the partial message are not a prefix of it")
 		}
 	}
-	// ---- afterwards: NextReader fails, always with the same error, nothing delivered
+	// ---- afterwards: NextReader fails, always with the same error, nothing delivered -
+	// also when the transport "recovers" and the rest of the stream becomes readable
+	if x.Pick(2, "transport-recovers-after-the-error") == 1 {
+		nc.In = append(append([]byte{}, nc.In...), stream[cut:]...)
+		nc.AtEnd, nc.LastWith = netsim.FailEOF, netsim.OK
+	}
 	reps := 5
 	if tier == "thorough" {
 		reps = 990
